@@ -16,13 +16,15 @@ temporary directory (one file per wind field; see ``vf/ref/c16_wind.py``):
   above the ISA limit) x heading;
 * every hour of 24-hour files (wind direction turning 15 degrees per hour) x heading;
 * every sequence (length 3; thorough: 4) of time stamps from an alphabet spanning files with
-  and without a time axis, two hours of one day, the same day-of-month in two months, asked
+  and without a time axis, two hours of one day, the same day-of-month in two months, and a
+  date for which the directory has no file (must be refused on every call, wherever it stands
+  in the sequence; valid stamps after it must still get their own day's wind), asked
   of ONE Weather object, each answer compared with the reference and, bit for bit, with the
   answer of a fresh object;
 * every repeated / interleaved query sequence on ONE Weather object over an alphabet of 12
   queries that differ from a base query in exactly one coordinate (hour, longitude, latitude,
   altitude, heading, airspeed, heading source, file) or lie outside the domain (horizontally,
-  vertically, above the ISA limit): a; a,b; a,b,a (incl. a,a and a,a,a); thorough: all
+  vertically, above the ISA limit, dates before / between / after the files): a; a,b; a,b,a (incl. a,a and a,a,a); thorough: all
   sequences of length <= 3.  A refused query must be refused every time it is asked.
 
 * every pair (thorough: also triple) of consecutive queries on ONE Weather object whose
@@ -72,7 +74,8 @@ ASSUMPTIONS = [
     'the data domain is the closed box spanned by the file coordinates; altitudes are placed >= 1 cm inside or '
     'outside the extreme pressure levels (the 1-ulp neighbourhood of the extreme levels is not examined); a '
     'refusal is any exception raised by the call (ValueError in practice)',
-    'time stamps are timezone-aware UTC on exact hours; longitudes use the same -180..180 convention as the file',
+    'a time stamp whose date has no file in the data directory is outside the data domain (refusal = any '
+    'exception, FileNotFoundError in practice); time stamps are timezone-aware UTC on exact hours; longitudes use the same -180..180 convention as the file',
     'known finding C16-heading-components-swapped is attributed only when the returned value equals '
     'hypot(TAS*cos(h)+u, TAS*sin(h)+v) within 1e-9 relative (every one of the 8 values for a rotation group)',
 ]
@@ -116,6 +119,14 @@ def _catalogue():
 
 
 CATALOGUE = _catalogue()
+# time stamps for which the data directory holds NO file (pseudo file ids): the day before the
+# first file, a day between the consecutive block and 'rot-next-month', a day after every file
+NO_FILE = {'no-file-before': -1, 'no-file-between': 28, 'no-file-after': 90}
+assert not set(NO_FILE.values()) & {e['offset'] for e in CATALOGUE.values()}
+
+
+def _offset(fid):
+    return NO_FILE[fid] if fid in NO_FILE else CATALOGUE[fid]['offset']
 
 
 def _date(fid):
@@ -194,6 +205,7 @@ REP_VARIATIONS = [
     ['heading-from-point', {'m': 'point'}], ['other-file', {'f': 'ml1'}],
     ['outside-west', {'lon': W.LON_LO - 1e-6}], ['outside-above-top-level', {'alt': W.isa_altitude_m(W.P_LO) + 0.01}],
     ['above-isa-limit', {'alt': 25000.01}],
+    ['no-file-before', {'f': 'no-file-before'}], ['no-file-between', {'f': 'no-file-between'}], ['no-file-after', {'f': 'no-file-after'}],
 ]  # fmt: skip
 REP_Q = [dict(REP_BASE, name=n, **d) for n, d in REP_VARIATIONS]
 
@@ -203,7 +215,7 @@ ALT_STEPS_T = [0.0, 1.0, 5.0, 20.0, 100.0, 200.0, 1000.0, -1.0, -5.0, -20.0]
 ALT_STEPS_TRIPLE = [0.0, 1.0, 5.0, 20.0, 200.0]
 ALT_QUERY = {'h': 45.0, 'tas': 200.0}
 
-SEQ_STAMPS = [['E10', 0], ['E10', 12], ['rot', 0], ['rot', 5], ['rot', 23], ['rot-next-month', 5], ['N50', 5]]
+SEQ_STAMPS = [['E10', 0], ['E10', 12], ['rot', 0], ['rot', 5], ['rot', 23], ['rot-next-month', 5], ['N50', 5], ['no-file-between', 5]]
 SEQ_QUERY = {'h': 45.0, 'tas': 200.0, 'alt': 9144.0, 'lon': -77.0, 'lat': 41.0}  # heading 45: sin = cos
 
 
@@ -313,7 +325,7 @@ def worker_init(tier, seed):
 
 
 def _stamp(fid, hour):
-    return _STATE['pd'].Timestamp(DAY0 + 86400 * CATALOGUE[fid]['offset'] + 3600 * hour, unit='s', tz='UTC')
+    return _STATE['pd'].Timestamp(DAY0 + 86400 * _offset(fid) + 3600 * hour, unit='s', tz='UTC')
 
 
 def _new_weather():
@@ -344,6 +356,8 @@ def _close(a, b):
 
 def _expect(fid, hour, lon, lat, alt):
     """('inside', u, v, p) | ('outside', why)."""
+    if fid in NO_FILE:
+        return ('outside', f'the data directory has no weather file for that date ({fid})')
     if alt > W.H_MAX:
         return ('outside', 'altitude above the 25 km validity limit of the ISA conversion')
     p = W.isa_pressure_hpa(alt)
@@ -456,15 +470,6 @@ def _run_rot(case):
     return {'outcome': 'rot:invariant' if not varies else 'rot:varies', 'nontrivial': True, 'violations': out}
 
 
-def _seq_expected(i):
-    fid, hour = SEQ_STAMPS[i]
-    q = SEQ_QUERY
-    e = _expect(fid, hour, q['lon'], q['lat'], q['alt'])
-    if e[0] != 'inside':
-        raise HarnessError('sequence query point must be inside the domain')
-    return W.ground_speed(q['tas'], q['h'], e[1], e[2])
-
-
 def _seq_fresh(i):
     """Answer of a fresh Weather object for stamp i (memoised per worker)."""
     if i not in _STATE['fresh']:
@@ -475,7 +480,7 @@ def _seq_fresh(i):
 
 
 def _run_seq(case):
-    out = []
+    out, classes = [], []
     q = SEQ_QUERY
     wx = _new_weather()
     names = [f'{SEQ_STAMPS[i][0]}@{SEQ_STAMPS[i][1]:02d}h' for i in case['s']]
@@ -483,18 +488,14 @@ def _run_seq(case):
         fid, hour = SEQ_STAMPS[i]
         r = _call(wx, fid, hour, q['lon'], q['lat'], q['alt'], q['tas'], q['h'], 'explicit')
         what = f'call {n + 1} of {names} on one Weather object'
-        if r[0] != 'gs':
-            out.append(V('refused-inside' if r[0] == 'refused' else 'internal-error', f'{what}: {r[1]}'))
+        classes.append(_check_call(r, _expect(fid, hour, q['lon'], q['lat'], q['alt']), q['tas'], q['h'], what, out))
+        if not out:
+            f = _seq_fresh(i)
+            if not _same_answer(f, r):
+                out.append(V('history-dependence', f'{what}: answered {r}, a fresh object answers {f}'))
+        if out:
             break
-        exp = _seq_expected(i)
-        if not _close(r[1], exp):
-            out.append(V('vector-sum', f'{what}: returned {r[1]!r}, the wind of that file and hour gives {exp!r}'))
-            break
-        f = _seq_fresh(i)
-        if repr(f) != repr(r):
-            out.append(V('history-dependence', f'{what}: returned {r[1]!r}, a fresh object returns {f}'))
-            break
-    return {'outcome': 'seq:consistent' if not out else 'seq:inconsistent', 'nontrivial': len(set(case['s'])) > 1, 'violations': out}
+    return {'outcome': _outcome('seq', classes), 'nontrivial': len(set(case['s'])) > 1, 'violations': out}
 
 
 def _rep_ask(wx, q):
